@@ -116,7 +116,8 @@ def hermetic_env(scratch: Path) -> None:
     os.environ['CYLC_CONF_PATH'] = str(conf)
     os.environ.pop('CYLC_SITE_CONF_PATH', None)
     os.environ['TZ'] = 'UTC'
-    os.environ.setdefault('USER', 'vf')
+    import pwd
+    os.environ['USER'] = pwd.getpwuid(os.getuid()).pw_name
     time.tzset()
 
 
